@@ -209,7 +209,8 @@ JudgeWeighted(e) ==
 \* -- absorption / transit setters: obs = [ka, dur, mat, mdt, rates, n], absent observables are UNDEF
 AbsRel(kind, o) ==
     CASE kind = "FO"  -> {Eq(o.ka, RelKA(o.mat))}
-      [] kind = "ZO"  -> {Eq(o.dur, RelDur(o.mat))}
+      \* (coming from SEQ-ZO-FO the zero-order part keeps its own time parameter, MDT)
+      [] kind = "ZO"  -> {IF Eq(o.dur, RelDur(o.mdt)) = "ok" THEN "ok" ELSE Eq(o.dur, RelDur(o.mat))}
       [] kind = "SEQ" -> {Eq(o.ka, RelKA(o.mat)), Eq(o.dur, RelDur(o.mdt))}
       [] kind = "TRANSIT" -> {Eq(o.rates[i], RelTransit(o.n, o.mdt)) : i \in 1..Len(o.rates)}
                              \cup {IF Len(o.rates) = o.n THEN "ok" ELSE "bad"}
